@@ -1,6 +1,7 @@
 package props
 
 import (
+	"verif/fold"
 	"fmt"
 	"hash/fnv"
 	"os"
@@ -142,7 +143,7 @@ func c08Read(c *sim.Ctx, w *world.World, st *c08State, hi int, h *c08Handle, rep
 			// is it an older version's content? (names the bug: staleness vs garbage)
 			older := -1
 			for v := w.Version - 1; v >= h.opened && v >= 0; v-- {
-				if hv, ok := st.hashes[v][strings.ToLower(t.Name)]; ok && hv == got {
+				if hv, ok := st.hashes[v][fold.Lower(t.Name)]; ok && hv == got {
 					older = v
 					break
 				}
@@ -160,7 +161,7 @@ func c08Read(c *sim.Ctx, w *world.World, st *c08State, hi int, h *c08Handle, rep
 			continue
 		}
 		// feed porcupine with the model's own hash when equal modulo documented relaxations
-		st.record(1+hi, histIn{false, w.Version, t.Name}, st.hashes[w.Version][strings.ToLower(t.Name)])
+		st.record(1+hi, histIn{false, w.Version, t.Name}, st.hashes[w.Version][fold.Lower(t.Name)])
 		c.Nontrivial = c.Nontrivial || (w.Version-h.opened > 0 && len(t.Rows) > 0)
 		// schema through this handle
 		rc := ops.Run(h.d, ops.Op{Kind: "columns", Table: t.Name}, nil)
@@ -252,7 +253,7 @@ func runC08(c *sim.Ctx) {
 		for _, t := range w.Snap.Tables {
 			if t.HasRows {
 				rows, _ := project(t, t.ColNames())
-				hv[strings.ToLower(t.Name)] = tableHash(rows)
+				hv[fold.Lower(t.Name)] = tableHash(rows)
 			}
 		}
 		st.hashes[w.Version] = hv
@@ -292,7 +293,7 @@ func runC08(c *sim.Ctx) {
 				return true, in.version
 			}
 			v := state.(int)
-			want, ok := st.hashes[v][strings.ToLower(in.table)]
+			want, ok := st.hashes[v][fold.Lower(in.table)]
 			if !ok {
 				want = absentHash
 			}
